@@ -278,6 +278,7 @@ fn run_session<S: CmdSet>(script: &Value, out: &mut dyn FnMut(Value), opts: &Run
     let prompt_idx = cfg["prompt"].as_u64().unwrap_or(0) as usize;
     let partial = cfg["partial"].as_u64().unwrap_or(0);
     let poison = cfg["poison"].as_bool().unwrap_or(false);
+    let via_processor = cfg["rawproc"].as_bool().unwrap_or(false);
     let empty_hs = HandlerScript {
         chunks: vec![],
         prompt: -1,
@@ -342,7 +343,26 @@ fn run_session<S: CmdSet>(script: &Value, out: &mut dyn FnMut(Value), opts: &Run
                 let b = step["b"].as_u64().unwrap_or(0) as u8;
                 let hs = parse_hs(step.get("hs"));
                 let mut calls = vec![];
-                let res = {
+                let res = if via_processor {
+                    // the library's own wrapper: RawCommand::processor(closure)
+                    let sink2 = sink.clone();
+                    let calls_ref = &mut calls;
+                    let hs_ref = &hs;
+                    let mut handler = RawCommand::processor(
+                        |h: &mut CliHandle<'_, Sink, SinkError>, raw: RawCommand<'_>| {
+                            let args: Vec<Value> = raw.args().args().map(|a| arg_json(&a)).collect();
+                            calls_ref.push(json!({"name": raw.name().as_bytes(), "args": args}));
+                            sink2.mark(Op::Hb);
+                            let res = perform(h.writer(), &hs_ref.chunks);
+                            if res.is_ok() && hs_ref.prompt >= 0 {
+                                h.set_prompt(PROMPTS[hs_ref.prompt as usize]);
+                            }
+                            sink2.mark(Op::He);
+                            res
+                        },
+                    );
+                    cli.process_byte::<S, _>(b, &mut handler)
+                } else {
                     let mut handler = RawHandler {
                         calls: &mut calls,
                         script: &hs,
